@@ -6,7 +6,7 @@ steps = [('ev', e) for e in prog.events]
 confs, edges = model.bfs(prog, [('start',)] + steps, max_depth=5)
 confs = [c for c in confs if c[0].started and len(c[0].deferred) + len(c[0].queue) <= 2]
 print(len(confs), 'configurations', edges, 'edges')
-cpp = emit.emit_cpp(prog, {'queue_api': True, 'has_deferred': any(st.deferred for m in prog.machines for st in m.states.values()) or bool(getattr(prog, 'sm_extra', None))})
+cpp = emit.emit_cpp(prog, {'defines': ['VF_KLEENE_ON 1'], 'queue_api': True, 'has_deferred': any(st.deferred for m in prog.machines for st in m.states.values()) or bool(getattr(prog, 'sm_extra', None))})
 import os
 proj = tuple(os.environ.get('PROJ', ''.join(emit.KINDS_ALL)))
 h, index = emit.emit_harness(prog, confs, steps, 'DEV', proj=proj, check_flags=bool(prog.flags))
